@@ -618,6 +618,22 @@ func runMux(cr *childResult, rng *hk.Rand, c *req.Client, base string, o *origin
 	var wg sync.WaitGroup
 	var mu sync.Mutex
 	results := map[string]string{}
+	var started, finished int64
+	stop := make(chan struct{})
+	var samplers sync.WaitGroup
+	slack := int64(0)
+	if label != "h3" {
+		samplers.Add(1)
+		go h2Sampler(cr, &mu, c.GetTransport(), label, roundID, stop, &samplers, 6)
+	}
+	if label != "h2" {
+		if label == "altsvc" {
+			slack = 2 // handlePendingAltSvc -> AddConn holds a count of its own for a moment
+			atomic.AddInt64(&started, slack)
+		}
+		samplers.Add(1)
+		go h3Sampler(cr, &mu, c.GetTransport(), label, roundID, &started, &finished, stop, &samplers, 6)
+	}
 	for g := 0; g < callers; g++ {
 		wg.Add(1)
 		lr := rng.Fork()
@@ -627,6 +643,8 @@ func runMux(cr *childResult, rng *hk.Rand, c *req.Client, base string, o *origin
 				kind := hk.Pick(lr, []string{"multi", "multi", "big", "get", "post", "head", "earlyreply"})
 				tag := fmt.Sprintf("%s-g%d-i%d", roundID, g, i)
 				withDump := lr.Chance(25)
+				atomic.AddInt64(&started, 1)
+				defer atomic.AddInt64(&finished, 1)
 				problem, proto, errored, body := doTaggedBody(c, base, tag, kind, roundID, false, withDump)
 				if withDump {
 					mu.Lock()
@@ -655,6 +673,42 @@ func runMux(cr *childResult, rng *hk.Rand, c *req.Client, base string, o *origin
 		}(g)
 	}
 	wg.Wait()
+	close(stop)
+	samplers.Wait()
+	// quiescent point: every caller has returned and read its body.  The stream table and the
+	// reservations of every pooled HTTP/2 connection, and the useCounts of the HTTP/3 cache,
+	// must drain (the clean-up goroutines of the last requests may still be running: generous
+	// settle loop; what does not drain within 10 s is a leak).
+	deadline := time.Now().Add(10 * time.Second)
+	for {
+		left := ""
+		if label != "h3" {
+			for k, l := range req.VerifH2Snapshot(c.GetTransport()).Conns {
+				for _, cn := range l {
+					if len(cn.Streams) != 0 || cn.Reserved != 0 {
+						left = fmt.Sprintf("h2 %s: %d streams, %d reserved", k, len(cn.Streams), cn.Reserved)
+					}
+				}
+			}
+		}
+		if label != "h2" {
+			for _, cl := range req.VerifH3Snapshot(c.GetTransport()) {
+				if cl.UseCount != 0 {
+					left = fmt.Sprintf("h3 %s: useCount %d", cl.Host, cl.UseCount)
+				}
+			}
+		}
+		if left == "" {
+			break
+		}
+		if time.Now().After(deadline) {
+			cr.fail(hk.Failure{Sig: "leak:" + label + ":" + strings.SplitN(left, " ", 2)[0], What: "with no request in flight, a cached connection still counts streams / reservations / users: " + left,
+				Input: map[string]interface{}{"round": roundID}})
+			break
+		}
+		time.Sleep(3 * time.Millisecond)
+	}
+	cr.count(label + ".quiescent_cache_checks")
 	// results holds the bytes each caller actually read from its response body
 	emitDemux(cr, o, results, label)
 }
